@@ -434,8 +434,10 @@ pub fn process<I: BufRead, O: Write>(
         }
         if insert_it {
             let substr = uncommented_buf.trim();
+            // The directive is the whole first word (`#undefine` is not `#undef`)
+            let directive = substr.split(char::is_whitespace).next().unwrap_or("");
             // Before substitution, test the #ifdef
-            if substr.starts_with("#ifdef") {
+            if directive == "#ifdef" {
                 let mut parts = substr.split("//").next().unwrap().splitn(2, ' ');
                 parts.next().unwrap();
                 let maybe_expr = parts.next().map(|s| s.trim()).and_then(|s| {
@@ -464,7 +466,7 @@ pub fn process<I: BufRead, O: Write>(
                 } else {
                     state = State::Skip;
                 }
-            } else if substr.starts_with("#ifndef") {
+            } else if directive == "#ifndef" {
                 let mut parts = substr.split("//").next().unwrap().splitn(2, ' ');
                 parts.next().unwrap();
                 let maybe_expr = parts.next().map(|s| s.trim()).and_then(|s| {
@@ -493,7 +495,7 @@ pub fn process<I: BufRead, O: Write>(
                 } else {
                     state = State::Skip;
                 }
-            } else if substr.starts_with("#undef") {
+            } else if directive == "#undef" {
                 if state == State::Active {
                     let mut parts = substr.split("//").next().unwrap().splitn(2, ' ');
                     parts.next().unwrap();
@@ -520,7 +522,7 @@ pub fn process<I: BufRead, O: Write>(
                         context.undefine(expr);
                     }
                 }
-            } else if substr.starts_with("#define") {
+            } else if directive == "#define" {
                 if state == State::Active {
                     let mut parts = substr.split("//").next().unwrap().splitn(2, ' ');
                     parts.next().unwrap();
